@@ -222,6 +222,25 @@ class BuiltinMixin(object):
         if len(args) != len(params):
             raise OutsideSubset("spec function %s arity" % name)
         args = [self.store_form(st, self.adapt(a, t), t) if t is not None else a for a, t in zip(args, params.values())]
+        for pnames, text in self.reg.inst_axioms.get(name, ()):
+            vals = [args[list(params).index(pn)] for pn in pnames]
+            seen = self.__dict__.setdefault("_inst_seen", [])
+            if not any(n == name and t == text and all(a.t.eq(b.t) for a, b in zip(vals, vs)) for n, t, vs in seen):
+                seen.append((name, text, vals))
+                s3 = State()
+                s3.env = dict(zip(pnames, vals))
+                s3.heap, s3.glob = st.heap, st.glob
+                saved = self.spec_defs
+                self.spec_defs = []
+                self.spec_depth += 1
+                try:
+                    g = truthy(self.ev1(ast.parse(text.strip(), mode="eval").body, s3))
+                finally:
+                    self.spec_depth -= 1
+                    extra = self.spec_defs
+                    self.spec_defs = saved
+                CTX.axioms.extend(extra)
+                CTX.axioms.append(g)
         if body is None:
             return core.ufun("sf_" + name, args, ret)
         s2 = State()
